@@ -98,7 +98,7 @@ theorem decodeBody_bodyString (b : Body) (h : ∀ n ∈ bodyNames b, TypeNameOK 
 theorem decodeGlobal_print (useHex : Int → Bool) (g : Global) (hn : g.name ≠ [])
     (hty : constTyOK g.ty g.init = true) (hwf : cwf g.init = true)
     (hnames : ∀ n ∈ tyNames g.ty ++ constNames g.init, TypeNameOK n) :
-    decodeGlobal (Enc.globalName g.name) g.isConst (tyString g.ty ++ [32] ++ constIdent useHex g.ty g.init) g.lead = some g := by
+    decodeGlobal (Enc.globalName g.name) g.isConst (tyString g.ty ++ [32] ++ constIdent useHex g.ty g.init) g.lead g.tail = some g := by
   have e : tyString g.ty ++ [32] ++ constIdent useHex g.ty g.init = tyString g.ty ++ 32 :: (constIdent useHex g.ty g.init ++ []) := by simp
   have hp := elem_step useHex g.ty g.init []
   have hc := read_const useHex g.init ((constIdent useHex g.ty g.init ++ []).length + 1) g.ty [] rfl
